@@ -577,6 +577,10 @@ func runC10(c *Ctx) {
 		c10Child(c, rt, list)
 		return
 	}
+	if list := os.Getenv("VERIF_C10_FORK_CHILD"); list != "" {
+		c10ForkChild(c, rt, list)
+		return
+	}
 	r.Rule = "programs: generated valid programs with wide map/array literals (C15 generator), hand-shaped valid programs with wide " +
 		"typed-map / struct literals, two split arguments over the same keys, nested map calls and a map call over a run-time map, and " +
 		"error programs with several simultaneous errors whose messages name map keys (ill-typed typed-map entries, ill-typed struct " +
@@ -769,7 +773,10 @@ func runC10(c *Ctx) {
 	}
 	c10SiteDifferential(c, nsite)
 	c10ConvertDifferential(c, nconv)
+	c10Site2Differentials(c)
 	c10RunProvocations(c, boost)
+	// ---- the ORDER of fork ids (static ragged nested map calls, run-time expansion) ----
+	c10ForkOrder(c, rt)
 }
 
 func head(s string, n int) string {
